@@ -67,10 +67,12 @@ def model_to_inputs(model, contract):
     # a candidate model is only replayed when every parameter can be rebuilt faithfully from it
     for _n, ty in contract.params:
         t = (ty or "any")
-        if t == "any" or t.startswith(("obj:", "class:", "cstruct:")) or "any" in t:
+        if t == "any" or t.startswith(("obj:", "cstruct:", "newobj:")) or "any" in t:
             return None, None
     inputs, consts = {}, {}
     for name, _ty in contract.params:
+        if (_ty or "").startswith("class:"):
+            continue
         if name not in model:
             return None, None
         inputs[name] = model[name]
